@@ -347,31 +347,60 @@ def faults_at(block, text, toks, i, kind):
 # ---------------------------------------------------------------------------------------------------------------------
 
 def structural_variants(m, xml):
-    """(description, xml) variants of a rendered seed whose diagnostics are attached to elements rather than to block texts"""
+    """(description, xml, expectation) variants of a rendered seed whose diagnostics are attached to elements rather than to block
+    texts.  The expectation (message prefix, canonical path prefix) names the element that the diagnostic is about; None = only the
+    per-diagnostic oracle applies."""
     out = []
 
-    def rep(desc, old, new, count=1):
-        if old in xml:
-            out.append((desc, xml.replace(old, new, count)))
+    def rep(desc, old, new, count=1, expect=None, src=None):
+        x = src or xml
+        if old in x:
+            out.append((desc, x.replace(old, new, count), expect))
 
     t0 = m["templates"][0]
     l0, l1 = t0["locations"][0], t0["locations"][1]
+    T1 = "/nta[1]/template[1]"
     rep("duplicate-location-id", 'id="%s"' % l1["id"], 'id="%s"' % l0["id"])
     if l0.get("name") and l1.get("name"):
-        rep("duplicate-location-name", "<name>%s</name>" % l1["name"], "<name>%s</name>" % l0["name"])
-        rep("keyword-location-name", "<name>%s</name>" % l1["name"], "<name>clock</name>")
-        rep("invalid-location-name", "<name>%s</name>" % l1["name"], "<name>two words</name>")
-    rep("keyword-template-name", "<name>%s</name>" % t0["name"], "<name>int</name>")
-    rep("empty-template-name", "<name>%s</name>" % t0["name"], "<name>1abc</name>")
+        rep("duplicate-location-name", "<name>%s</name>" % l1["name"], "<name>%s</name>" % l0["name"],
+            expect=("$Duplicate_definition_of", T1 + "/location[2]"))
+        rep("keyword-location-name", "<name>%s</name>" % l1["name"], "<name>clock</name>", expect=("$Keywords_are_not", T1 + "/location[2]"))
+        rep("invalid-location-name", "<name>%s</name>" % l1["name"], "<name>two words</name>", expect=("Invalid identifier", T1 + "/location[2]"))
+        # an anonymous empty location whose generated name `_<id>` is taken by a named one: reported at the anonymous location
+        nloc = len(t0["locations"])
+        anon = '<location id="id90" x="0" y="0">\n</location>\n'
+        x2 = xml.replace("<name>%s</name>" % l1["name"], "<name>_id90</name>", 1)
+        last = x2.rfind("</location>\n", 0, x2.index("</template>")) + len("</location>\n")     # after the template's last location
+        out.append(("generated-name-clash", x2[:last] + anon + x2[last:], ("$Duplicate_definition_of", T1 + "/location[%d]" % (nloc + 1))))
+        if len(t0["locations"]) > 2:
+            l2 = t0["locations"][2]
+            rep("generated-name-clash-middle", '<location id="%s"' % l2["id"], anon + '<location id="%s"' % l2["id"], src=x2,
+                expect=("$Duplicate_definition_of", T1 + "/location[3]"))
+    rep("keyword-template-name", "<name>%s</name>" % t0["name"], "<name>int</name>", expect=("$Keywords_are_not", T1 + "/name[1]"))
+    rep("empty-template-name", "<name>%s</name>" % t0["name"], "<name>1abc</name>", expect=("Identifier expected", T1 + "/name[1]"))
     if len(m["templates"]) > 1:
-        rep("duplicate-template-name", "<name>%s</name>" % m["templates"][1]["name"], "<name>%s</name>" % t0["name"])
-    rep("missing-init", '<init ref="%s"/>' % t0["init"], "")
-    rep("blank-system", "<system>%s</system>" % esc(m["system"]), "<system>  \n </system>")
-    rep("empty-system", "<system>%s</system>" % esc(m["system"]), "<system></system>")
-    rep("no-system", "<system>%s</system>" % esc(m["system"]), "")
-    rep("urgent-and-committed", "</location>", "<urgent/><committed/></location>")
+        rep("duplicate-template-name", "<name>%s</name>" % m["templates"][1]["name"], "<name>%s</name>" % t0["name"],
+            expect=("$Duplicate_definition_of", "/nta[1]/template[2]"))
+    rep("missing-init", '<init ref="%s"/>' % t0["init"], "", expect=("$Missing_initial_location", T1))
+    rep("blank-system", "<system>%s</system>" % esc(m["system"]), "<system>  \n </system>", expect=("$syntax_error", "/nta[1]/system[1]"))
+    rep("empty-system", "<system>%s</system>" % esc(m["system"]), "<system></system>", expect=("$syntax_error", "/nta[1]/system[1]"))
+    rep("no-system", "<system>%s</system>" % esc(m["system"]), "", expect=("$Missing_system_tag", "/nta[1]"))
+    rep("urgent-and-committed", "</location>", "<urgent/><committed/></location>", expect=("$States_cannot_be_committed_and_urgent", T1 + "/location[1]"))
     rep("unknown-element", "<template>", "<template><frobnicate a=\"1\"><x/></frobnicate>")
     rep("two-invariants", "</location>", '<label kind="invariant">zi &lt; 9</label></location>')
     rep("comment-node-in-block", "<declaration>", "<declaration><!-- xml comment -->")
     rep("cdata-block", "<system>%s</system>" % esc(m["system"]), "<system><![CDATA[%s zzq1]]></system>" % m["system"].replace(";", ","))
     return out
+
+
+# renderings of the XML layer: the same elements with and without white space between them, empty elements closed in place
+XML_LAYERS = ["pretty", "compact", "selfclosed", "compact-selfclosed"]
+
+
+def xml_layer(xml, layer):
+    if "selfclosed" in layer:
+        xml = re.sub(r"<location ([^<>]*[^/<>])>\s*</location>", r"<location \1/>", xml)
+    if layer.startswith("compact"):
+        # white space between two tags only: block texts start after `>` with a non-`<` character or are left alone
+        xml = re.sub(r">[ \n]+<(?=[a-z/])", "><", xml)
+    return xml
